@@ -96,7 +96,7 @@ namespace Glom.C01
 open Glom
 
 /-- how a reference walk is reported by `_t_eval` -/
-def outOfWalk (w : WalkRes) (t : List Nat) : TOut :=
+def outOfWalk (w : WalkRes) (t : List (Nat × Val)) : TOut :=
   match w with
   | .ok v => ⟨.ok v, t⟩
   | .fail k e => ⟨.error (.pae k e), t⟩
@@ -126,13 +126,13 @@ namespace Glom.C01
 open Glom
 
 theorem tLoop_step (env : TEnv) (hwf : WF env = true) (h : Heap) (flat : List Val) (i : Nat)
-    (cur : Val) (tr : List Nat) (op : String) (arg : Val)
+    (cur : Val) (tr : List (Nat × Val)) (op : String) (arg : Val)
     (hlt : i < flat.length) (hop : flat[i]? = some (.str op)) (harg : flat[i+1]? = some arg)
     (hw : wfSteps [(op, arg)] = true) :
     tLoop env h flat i cur tr =
       match refAccess env h op cur arg with
-      | some (.ok v) => tLoop env h flat (i + 2) v (tr ++ [i / 2])
-      | some (.error e) => ⟨.error (.pae (i / 2) e), tr ++ [i / 2]⟩
+      | some (.ok v) => tLoop env h flat (i + 2) v (tr ++ [(i / 2, cur)])
+      | some (.error e) => ⟨.error (.pae (i / 2) e), tr ++ [(i / 2, cur)]⟩
       | none => ⟨.error .unregistered, tr⟩ := by
   obtain ⟨h1, h2, h3, _⟩ := WF_parts hwf
   obtain ⟨c1, hd1, hc1⟩ := catches_dispatch h1
@@ -182,7 +182,7 @@ theorem wfSteps_cons {op arg rest} (h : wfSteps ((op, arg) :: rest) = true) :
     is the structural walk over the remaining steps -/
 theorem tLoop_eq_walk (env : TEnv) (hwf : WF env = true) (h : Heap) (root : Val)
     (rest : List (String × Val)) :
-    ∀ (pre : List (String × Val)) (cur : Val) (tr : List Nat), wfSteps rest = true →
+    ∀ (pre : List (String × Val)) (cur : Val) (tr : List (Nat × Val)), wfSteps rest = true →
     tLoop env h (root :: flatOfSteps (pre ++ rest)) (1 + 2 * pre.length) cur tr =
       outOfWalk (walk env h rest pre.length cur) (tr ++ walkTouched env h rest pre.length cur) := by
   induction rest with
@@ -210,7 +210,7 @@ theorem tLoop_eq_walk (env : TEnv) (hwf : WF env = true) (h : Heap) (root : Val)
       | error e => simp [outOfWalk]
       | ok v =>
         simp only
-        have := ih (pre ++ [(op, arg)]) v (tr ++ [pre.length]) hw2
+        have := ih (pre ++ [(op, arg)]) v (tr ++ [(pre.length, cur)]) hw2
         simp only [List.append_assoc, List.singleton_append, List.length_append,
           List.length_singleton] at this
         rw [show 1 + 2 * pre.length + 2 = 1 + 2 * (pre.length + 1) by omega, this]
@@ -277,7 +277,7 @@ theorem walk_fail_first (env : TEnv) (h : Heap) :
 
 theorem walkTouched_ok (env : TEnv) (h : Heap) :
     ∀ (steps : List (String × Val)) (k0 : Nat) (t v : Val),
-      walk env h steps k0 t = .ok v → walkTouched env h steps k0 t = List.range' k0 steps.length := by
+      walk env h steps k0 t = .ok v → (walkTouched env h steps k0 t).map (·.1) = List.range' k0 steps.length := by
   intro steps
   induction steps with
   | nil => intro k0 t v _; rfl
@@ -287,13 +287,13 @@ theorem walkTouched_ok (env : TEnv) (h : Heap) :
     simp only [walk] at hw
     simp only [walkTouched]
     split at hw
-    · simp only [List.length_cons, List.range'_succ]; rw [ih _ _ _ hw]
+    · simp only [List.length_cons, List.range'_succ, List.map_cons]; rw [ih _ _ _ hw]
     · contradiction
     · contradiction
 
 theorem walkTouched_fail (env : TEnv) (h : Heap) :
     ∀ (steps : List (String × Val)) (k0 : Nat) (t : Val) (k : Nat) (e : PyExc),
-      walk env h steps k0 t = .fail k e → walkTouched env h steps k0 t = List.range' k0 (k - k0 + 1) := by
+      walk env h steps k0 t = .fail k e → (walkTouched env h steps k0 t).map (·.1) = List.range' k0 (k - k0 + 1) := by
   intro steps
   induction steps with
   | nil => intro k0 t k e hw; simp [walk] at hw
@@ -305,13 +305,18 @@ theorem walkTouched_fail (env : TEnv) (h : Heap) :
     split at hw
     · rename_i u hu
       have hle := (walk_fail_first env h _ _ _ _ _ hw).1
-      rw [ih _ _ _ _ hw]
+      rw [List.map_cons, ih _ _ _ _ hw]
       rw [show k - k0 + 1 = (k - (k0 + 1) + 1) + 1 by omega]
       simp [List.range'_succ]
     · rename_i e' he
       injection hw with hk _; subst hk
       simp
     · contradiction
+
+theorem isSubseq_refl (l : List Nat) : isSubseq l l = true := by
+  induction l with
+  | nil => rfl
+  | cons a r ih => simp [isSubseq, ih]
 
 /-! ### text paths -/
 
